@@ -196,14 +196,18 @@ def ix_order_of(stmts, table):
 # ------------------------------------------------------------------------------- one case
 
 def new_case(table, ops, recreate="always", copy_from=False, fault=None, scope="none", iso="default", tddl=None,
-             fkind="exception", pr=None, schema=None, main_twin=False, wfilter="ignore"):
+             fkind="exception", pr=None, schema=None, main_twin=False, wfilter="ignore",
+             identity=None):
     """schema: the table lives in an ATTACHed database of that name (batch_alter_table(..., schema=...)); main_twin: a different
     table of the same name exists in `main`"""
     if schema:
         table = dict(table, schema=schema)
     return {"table": table, "ops": ops, "recreate": recreate, "copy_from": copy_from, "fault": fault, "scope": scope,
             "iso": iso, "tddl": tddl, "fkind": fkind, "pr": pr, "schema": schema, "main_twin": bool(main_twin and schema),
-            "wfilter": wfilter}
+            "wfilter": wfilter,
+            # copy_from only: how the integer primary key is declared in the Table object: None / "always" (Identity(always=True)) /
+            # "default" (Identity()) / "autoincrement"
+            "identity": identity if copy_from else None}
 
 
 def run_impl(case):
@@ -212,7 +216,7 @@ def run_impl(case):
         return bi.run_batch(db, case["ops"], recreate=case["recreate"], copy_from=case["copy_from"],
                             fault=case["fault"], scope=case["scope"], universe=bg.universe(case["table"], case["ops"]),
                             tddl=case.get("tddl"), fkind=case.get("fkind", "exception"), pr=case.get("pr"),
-                            wfilter=case.get("wfilter", "ignore"))
+                            wfilter=case.get("wfilter", "ignore"), identity=case.get("identity"))
     finally:
         db.close()
 
